@@ -33,7 +33,7 @@ ENV.update({
     "nth": lambda s, i: list(s)[i], "has": lambda c, x: x in c, "lookup": lambda d, k: d[k] if k in d else None,
     "is_none": lambda x: x is None, "tup": lambda *a: tuple(a), "append": lambda s, x: list(s) + [x],
     "true": True, "false": False, "strlen": len, "prefixof": lambda p, s: s.startswith(p),
-    "prefix": lambda s, i: list(s)[:i],
+    "seq_prefix": lambda s, i: list(s)[:i],
 })
 
 # ---- T-SIG
